@@ -693,9 +693,9 @@ def live_cases(ctx, res, prefix):
 
 
 def plan_c07(ctx):
-    r = live_mc(ctx, "fin", "FinScope", True)
+    r = live_mc(ctx, "fin", T(ctx, "FinScope", "FinScopeT"), True)
     add(ctx, live_cases(ctx, r, "f"))
-    r = live_mc(ctx, "grow", "GrowScope", False)
+    r = live_mc(ctx, "grow", T(ctx, "GrowScope", "GrowScopeT"), False)
     add(ctx, live_cases(ctx, r, "g"))
     # the documented examples as queries
     add(ctx, [query(ctx, "C07-doc-1", 1, [["conde", [[["never"]], [["eq", ["var", 1], ["num", 1]]]]]], take=1, fuel=6,
